@@ -1111,6 +1111,16 @@ class Compiler:
                 self.scopes.pop()
                 return stmts
 
+            def visit_FunctionDef(self, node: ast.FunctionDef) -> ast.AST:
+                # A function (a slot filler) writes to the stream that it
+                # is called with, not to the translation block that it
+                # is defined in.
+                self.scopes.append(TranslationContext())
+                try:
+                    return self.generic_visit(node)
+                finally:
+                    self.scopes.pop()
+
             def visit_TokenRef(self, node: TokenRef) -> ast.AST:
                 self.tokens.append((node.token.pos, len(node.token)))
                 assignment = ast.Assign(
